@@ -6,6 +6,8 @@
 -/
 import Coraza.Proofs.Op
 import Coraza.Model.IpMatch
+import Coraza.Proofs.Regex
+import Coraza.Base.Lit
 open Coraza Coraza.Op
 
 /-! ## string operators (argument already macro-expanded) -/
@@ -234,3 +236,34 @@ example : ipMatch [0x31, 0x2e, 0x32, 0x2e, 0x33, 0x2e, 0x30, 0x2f, 0x32, 0x34] [
 -- a bare address is its own /32: "1.2.3.4" contains "::ffff:102:304"
 example : ipMatch [0x31, 0x2e, 0x32, 0x2e, 0x33, 0x2e, 0x34]
             [0x3a, 0x3a, 0x66, 0x66, 0x66, 0x66, 0x3a, 0x31, 0x30, 0x32, 0x3a, 0x33, 0x30, 0x34] = true := by decide
+
+/-! ## @rx (and regex keys): the matcher of the regex model is exact -/
+
+open Coraza.Regex in
+/-- **C15_rx_exact**: for every expression of the modelled RE2 fragment and every input, the answer
+    (`regexp.MatchString` as @rx and the regex keys use it) is true iff some substring of the input is
+    matched by the expression in its context — the declarative semantics `Regex.Matches`
+    (concatenation splits, alternation picks a branch, star iterates, a class consumes one byte, an
+    empty-width assertion looks at the two neighbouring bytes). No bound on expression or input. -/
+theorem C15_rx_exact (r : Re) (s : Bytes) :
+    search r s = true ↔ ∃ pre m post, s = pre ++ m ++ post ∧ Matches r (lst none pre) m (hd post none) :=
+  search_iff r s
+
+open Coraza.Regex in
+/-- a leading `!` on @rx is the exact complement (no input is both matched and not matched) -/
+theorem C15_rx_negation (r : Re) (s : Bytes) :
+    (!search r s) = true ↔ ¬ ∃ pre m post, s = pre ++ m ++ post ∧ Matches r (lst none pre) m (hd post none) := by
+  rw [← C15_rx_exact]; simp
+
+open Coraza.Regex in
+/-- the empty expression matches everything; the `(?sm)` prefix of @rx makes `.` match a newline and
+    `^`/`$` match at line boundaries (checked on the parser's output) -/
+example : parse {} (b!"(?sm)^b.c$") =
+    some (.cat .eps (.cat (.asrt .bol) (.cat (.cls false [(98, 98)]) (.cat (.cls true []) (.cat (.cls false [(99, 99)]) (.cat (.asrt .eol) .eps)))))) := by
+  decide
+open Coraza.Regex in
+example : matchString (b!"(?sm)^b.c$") [97, 10, 98, 10, 99, 10, 100] = some true := by decide
+open Coraza.Regex in
+example : matchString (b!"^b.c$") [97, 10, 98, 10, 99, 10, 100] = some false := by decide
+open Coraza.Regex in
+example : matchString (b!"(?i)^Ab+c?$") (b!"aBBB") = some true := by decide
